@@ -3,6 +3,7 @@ package linter
 import (
 	"fmt"
 	"strings"
+	"sync"
 
 	"github.com/pkg/errors"
 	"github.com/ysugimoto/falco/v2/ast"
@@ -21,6 +22,9 @@ type Linter struct {
 	lexers     map[string]*lexer.Lexer
 	ignore     *ignore
 	conf       *config.LinterConfig
+
+	// Error() is called concurrently from custom linter (plugin) goroutines
+	mu sync.Mutex
 }
 
 func New(c *config.LinterConfig, opts ...optionFunc) *Linter {
@@ -40,6 +44,9 @@ func (l *Linter) Lexers() map[string]*lexer.Lexer {
 }
 
 func (l *Linter) Error(err error) {
+	l.mu.Lock()
+	defer l.mu.Unlock()
+
 	if le, ok := err.(*LintError); ok {
 		if !l.ignore.IsEnable(le.Rule) {
 			l.Errors = append(l.Errors, le)
